@@ -130,7 +130,7 @@ func runC08() int {
 	r := explore.New("C08")
 	// every family that other checks execute or inspect is also an acceptance obligation here
 	// (those checks skip a program the front end rejects, attributing the rejection to C08)
-	fams := append(quickFamilies(r), wgen.F3(r.Thorough()), wgen.F4Access(), wgen.F15Zero(), wgen.F15Ops())
+	fams := append(quickFamilies(r), wgen.F3(r.Thorough()), wgen.F4Access(), wgen.F15Zero(), wgen.F15Ops(), wgen.F4Idx())
 	texts := append([]wgen.Micro{}, wgen.Micros...)
 	for _, fp := range wgen.F5Programs(r.Thorough()) {
 		texts = append(texts, wgen.Micro{Name: fp.Sig, Src: fp.Src})
